@@ -17,8 +17,8 @@ LADDER = {
     "term": "?term: factor (_mul_op factor)*",
     "factor": "?factor: (_unary_op factor | power)",
     "power": '?power: signedatom ("**" factor)?',
-    "signedatom": "?signedatom: (SIGN signedatom | func | logicalfunc | atom)",
-    "atom": '?atom: (scientific | variable | constant | "(" expression ")")',
+    "signedatom": "?signedatom: (SIGN signedatom | atom | func | logicalfunc)",
+    "atom": '?atom: ("(" expression ")" | constant | scientific | variable)',  # alternatives in canonical (sorted) order
     "_unary_op": '!_unary_op: ("+" | "-" | "~")',
     "_add_op": '!_add_op: ("+" | "-")',
     "_mul_op": '!_mul_op: ("*" | "/")',
